@@ -160,11 +160,25 @@ theorem clz_small55 {w : Nat} (h1 : 2 ^ 55 ≤ w) (h2 : w < 2 ^ 64) : 2 * 2 ^ cl
   have h16 : 2 ^ clz64 w ≤ 2 ^ 8 := Nat.pow_le_pow_right (by decide) (by omega)
   omega
 
+/-- the booked truncation error of a mantissa of at least 54 bits is at most 1025 units -/
+theorem clz_small54 {w : Nat} (h1 : 2 ^ 54 ≤ w) (h2 : w < 2 ^ 64) : 2 * 2 ^ clz64 w + 1 ≤ 1025 := by
+  obtain ⟨_, _, hlt, _⟩ := LexVerif.Proof.BinaryCorrect.clz_norm (M := w) (by
+    have := Nat.two_pow_pos 54; omega) h2
+  have : 2 ^ 54 * 2 ^ clz64 w < 2 ^ 54 * 2 ^ 10 := by
+    calc 2 ^ 54 * 2 ^ clz64 w ≤ w * 2 ^ clz64 w := Nat.mul_le_mul_right _ h1
+      _ < 2 ^ 64 := hlt
+      _ = 2 ^ 54 * 2 ^ 10 := by norm_num
+  have h5 := Nat.lt_of_mul_lt_mul_left this
+  have h4 : clz64 w < 10 := (Nat.pow_lt_pow_iff_right (by decide : 1 < 2)).mp h5
+  have h16 : 2 ^ clz64 w ≤ 2 ^ 9 := Nat.pow_le_pow_right (by decide) (by omega)
+  omega
+
 /-- **a generic-radix `Number`, truncated mantissa** (at least 55 bits, as every `u64_step`-digit mantissa has): the value
 of all the digits is a true value of the `Number` (`htv`); a valid answer of `bellerophon` is right, an invalid-marked one
 brackets the value; `hslow`: what `slow_radix` returns for it -/
 theorem numberToFloat_generic_truncated {F : FTy} (hF : IsLemireFloat F) (slow : SlowRadix) (c : Cfg) (G : GenericClass c)
-    (n : Number) (hmany : n.manyDigits = true) (hw : n.mantissa < 2 ^ 64) (hw55 : 2 ^ 55 ≤ n.mantissa)
+    (n : Number) (hmany : n.manyDigits = true) (hw : n.mantissa < 2 ^ 64) (hw54 : 2 ^ 54 ≤ n.mantissa)
+    (hw55 : F = FTy.f64 → 2 ^ 55 ≤ n.mantissa)
     (htv : TrueValue c.mantissaRadix (numOf n) (litFrac c.mantissaRadix c.exponentBase (numberLit c n)).1
       (litFrac c.mantissaRadix c.exponentBase (numberLit c n)).2)
     (hslow : ∀ fp, moderatePath c F (numOf n) false = .ok fp → fp.exp < 0 →
@@ -192,8 +206,8 @@ theorem numberToFloat_generic_truncated {F : FTy} (hF : IsLemireFloat F) (slow :
   have hlitpos := litFrac_den_pos (show 0 < c.mantissaRadix by omega) (show 0 < c.exponentBase by omega) (numberLit c n)
   have hmw : (numOf n).manyDigits = true → 2 ^ 44 ≤ (numOf n).mantissa := by
     intro _
-    have : (2 : Nat) ^ 44 ≤ 2 ^ 55 := by decide
-    exact Nat.le_trans this hw55
+    have : (2 : Nat) ^ 44 ≤ 2 ^ 54 := by decide
+    exact Nat.le_trans this hw54
   -- the specification side
   have hbits : numberBits c F.fmt n = litBits F.fmt c.mantissaRadix c.exponentBase (numberLit c n) := by
     unfold numberBits numberLit
@@ -219,21 +233,32 @@ theorem numberToFloat_generic_truncated {F : FTy} (hF : IsLemireFloat F) (slow :
       rfl
     · have hinv : fp.exp < 0 := by omega
       obtain ⟨_, _, hE⟩ := bellerophon_invalid_est lay hc (numOf n) hw hmw _ _ hlitpos htv hbel hinv
-      have hch : (8 + if (numOf n).manyDigits then 2 * 2 ^ clz64 (numOf n).mantissa + 1 else 0) ≤ 521 := by
+      obtain ⟨CH, hch, h8, hCH0⟩ : ∃ CH, (8 + if (numOf n).manyDigits then 2 * 2 ^ clz64 (numOf n).mantissa + 1 else 0) ≤ CH ∧
+          2 * CH ≤ 2 ^ (64 - p) ∧ 0 < CH := by
         have e1 : (numOf n).manyDigits = true := hmany
-        rw [e1, if_pos rfl]
-        have := clz_small55 hw55 hw
         have e2 : (numOf n).mantissa = n.mantissa := rfl
-        rw [e2]; omega
+        rw [e1, if_pos rfl, e2]
+        rcases hF with h | h
+        · refine ⟨521, ?_, ?_, by decide⟩
+          · have := clz_small55 (hw55 h) hw; omega
+          · calc 2 * 521 ≤ 2 ^ 11 := by decide
+              _ ≤ 2 ^ (64 - p) := Nat.pow_le_pow_right (by decide) (by omega)
+        · refine ⟨1033, ?_, ?_, by decide⟩
+          · have := clz_small54 hw54 hw; omega
+          · have hp24 : p = 24 := by
+              have hfmt := lay.fmt
+              subst h
+              have h1 : FTy.f32.fmt.p = p := by rw [hfmt]
+              have : FTy.f32.fmt.p = 24 := rfl
+              omega
+            calc 2 * 1033 ≤ 2 ^ 40 := by decide
+              _ ≤ 2 ^ (64 - p) := Nat.pow_le_pow_right (by decide) (by omega)
       have h16 : 4 * 4 ≤ 2 ^ (64 - p) := by
         calc 4 * 4 ≤ 2 ^ 11 := by decide
           _ ≤ 2 ^ (64 - p) := Nat.pow_le_pow_right (by decide) (by omega)
-      have h8 : 2 * 521 ≤ 2 ^ (64 - p) := by
-        calc 2 * 521 ≤ 2 ^ 11 := by decide
-          _ ≤ 2 ^ (64 - p) := Nat.pow_le_pow_right (by decide) (by omega)
       have hbr : Bracket F fp (litFrac c.mantissaRadix c.exponentBase (numberLit c n)).1
           (litFrac c.mantissaRadix c.exponentBase (numberLit c n)).2 :=
-        bracket_of_est2 lay 4 521 h16 h8 (by decide) _ _ _ hlitpos (C01Compact.est2_mono hE hch)
+        bracket_of_est2 lay 4 CH h16 h8 hCH0 _ _ _ hlitpos (C01Compact.est2_mono hE hch)
       have hsp : slowPath slow c F n { fp with exp := fp.exp - invalidFp } =
           slow c F n { fp with exp := fp.exp - invalidFp } := by
         unfold slowPath
@@ -561,7 +586,8 @@ generic radix — a mantissa word of at least 55 bits and the value of all the d
 def SyntaxFacts (c : Cfg) (n : Number) : Prop :=
   (n.manyDigits = false → NumberExactAt c n ∧ (IsPow2 c.mantissaRadix → ExpWide n.exponent)) ∧
   (n.manyDigits = true → IsPow2 c.mantissaRadix → TruncPow2At c n) ∧
-  (n.manyDigits = true → GenericClass c → n.mantissa < 2 ^ 64 ∧ 2 ^ 55 ≤ n.mantissa ∧
+  (n.manyDigits = true → GenericClass c → n.mantissa < 2 ^ 64 ∧ 2 ^ 54 ≤ n.mantissa ∧
+    (c.mantissaRadix ≠ 31 → 2 ^ 55 ≤ n.mantissa) ∧
     TrueValue c.mantissaRadix (numOf n) (litFrac c.mantissaRadix c.exponentBase (numberLit c n)).1
       (litFrac c.mantissaRadix c.exponentBase (numberLit c n)).2)
 
@@ -577,7 +603,8 @@ def SlowFacts (slow : SlowRadix) (c : Cfg) (F : FTy) (n : Number) : Prop :=
 
 /-- **C05, one `Number`**: every radix class, truncated or not -/
 theorem numberToFloat_radix (slow : SlowRadix) {F : FTy} (hF : IsLemireFloat F) (c : Cfg) (R : RadixClass c)
-    (n : Number) (hsyn : SyntaxFacts c n) (hslow : GenericClass c → SlowFacts slow c F n) :
+    (n : Number) (hsyn : SyntaxFacts c n) (hslow : GenericClass c → SlowFacts slow c F n)
+    (h31 : c.mantissaRadix = 31 → F = FTy.f64 → n.manyDigits = true → 2 ^ 55 ≤ n.mantissa) :
     numberToFloat slow c F n false = some (numberBits c F.fmt n) := by
   obtain ⟨s1, s2, s3⟩ := hsyn
   cases hmany : n.manyDigits with
@@ -596,8 +623,11 @@ theorem numberToFloat_radix (slow : SlowRadix) {F : FTy} (hF : IsLemireFloat F) 
   | true =>
     rcases R with ⟨hp, hr, hb⟩ | ⟨G⟩
     · exact numberToFloat_pow2_truncated slow hF c hp hr hb n hmany (s2 hmany hr)
-    · obtain ⟨hw, hw55, htv⟩ := s3 hmany G
-      exact numberToFloat_generic_truncated hF slow c G n hmany hw hw55 htv (hslow G)
+    · obtain ⟨hw, hw54, hw55, htv⟩ := s3 hmany G
+      exact numberToFloat_generic_truncated hF slow c G n hmany hw hw54 (fun hf => by
+        by_cases h : c.mantissaRadix = 31
+        · exact h31 h hf hmany
+        · exact hw55 h) htv (hslow G)
 
 /-- **`C05_radix_main`** — API level: for every radix class (power-of-two radices with every supported exponent base;
 the 29 generic radices of `radix` builds, `compact` or not), `f32`/`f64`, complete and partial parser, the pipeline with
@@ -609,11 +639,14 @@ theorem C05_radix_main (feats : Features) (fmt : Format) (R : RadixClass ⟨feat
     (hsyn : ∀ n cnt, parseFloatSyntax ⟨feats, fmt, false⟩ o isPartial s (formatError feats fmt).isNone =
       .ok (.number n cnt) → SyntaxFacts ⟨feats, fmt, false⟩ n)
     (hslow : ∀ n cnt, parseFloatSyntax ⟨feats, fmt, false⟩ o isPartial s (formatError feats fmt).isNone =
-      .ok (.number n cnt) → GenericClass ⟨feats, fmt, false⟩ → SlowFacts slowModel ⟨feats, fmt, false⟩ F n) :
+      .ok (.number n cnt) → GenericClass ⟨feats, fmt, false⟩ → SlowFacts slowModel ⟨feats, fmt, false⟩ F n)
+    (h31 : fmt.mantissaRadix = 31 → F = FTy.f64 → ∀ n cnt, parseFloatSyntax ⟨feats, fmt, false⟩ o isPartial s
+      (formatError feats fmt).isNone = .ok (.number n cnt) → n.manyDigits = true → 2 ^ 55 ≤ n.mantissa) :
     parseFloatAlgoModel slowModel feats fmt o isPartial F s = parseFloatModel feats fmt o isPartial F.fmt s := by
   apply parseFloatAlgoModel_eq_valid
   intro _ n cnt hp
   exact numberToFloat_radix slowModel hF ⟨feats, fmt, false⟩ R n (hsyn n cnt hp) (hslow n cnt hp)
+    (fun h hf => h31 h hf n cnt hp)
 
 /-- **the full statement** (a `Prop`): the same without residual hypotheses, for the separator-free format classes of C12
 and inputs of bytes shorter than `2^60`. `Props.C05Syntax` discharges `SyntaxFacts` for the classes with exponent base =
